@@ -48,9 +48,13 @@ var stale = bytes.Repeat([]byte("stale bytes of an earlier, longer output file "
 // preexisting makes the -o target of the next tool call an existing file that is longer than anything the tool will write.
 func preexisting(path string) { os.WriteFile(path, stale, 0o644) }
 
+// toolCwd is set (and reset) by a caller that wants the next tool() call to run in another working directory.
+var toolCwd string
+
 func tool(name string, env []string, args ...string) toolResult {
 	invocations++
 	cmd := exec.Command(bins[name], args...)
+	cmd.Dir = toolCwd
 	cmd.Env = append(os.Environ(), env...)
 	cmd.Stdin = nil
 	var buf bytes.Buffer
@@ -437,7 +441,26 @@ func run20(r *mon.Run) {
 		baseStr := mon.Pick(g, []string{"https://example.com/", "https://example.com/site/v1/"})
 		base, _ := url.Parse(baseStr)
 		wbn := filepath.Join(scratch, fmt.Sprintf("t%d.wbn", t))
-		args := []string{"-dir", root, "-baseURL", baseStr, "-version", ver, "-o", wbn}
+		// the directory argument is spelled the ways people type it: clean absolute, trailing slash, doubled slash, "./" in
+		// the middle, through "..", and relative to the working directory ("./tree-N", "tree-N", ".")
+		dirArg, cwd := root, ""
+		switch t % 8 {
+		case 1:
+			dirArg = root + "/"
+		case 2:
+			dirArg = filepath.Dir(root) + "//" + filepath.Base(root)
+		case 3:
+			dirArg = filepath.Dir(root) + "/./" + filepath.Base(root)
+		case 4:
+			dirArg = root + "/../" + filepath.Base(root)
+		case 5:
+			dirArg, cwd = "./"+filepath.Base(root), filepath.Dir(root)
+		case 6:
+			dirArg, cwd = filepath.Base(root), filepath.Dir(root)
+		case 7:
+			dirArg, cwd = ".", root
+		}
+		args := []string{"-dir", dirArg, "-baseURL", baseStr, "-version", ver, "-o", wbn}
 		if ver == "b1" || g.Chance(1, 3) {
 			args = append(args, "-primaryURL", baseStr+"plain.txt")
 		}
@@ -455,12 +478,14 @@ func run20(r *mon.Run) {
 		for _, f := range files {
 			names = append(names, f.rel)
 		}
-		det := map[string]any{"tree": t, "version": ver, "base_url": baseStr, "files": names, "header_override": override, "manifest_url": manifest}
+		det := map[string]any{"tree": t, "version": ver, "base_url": baseStr, "files": names, "header_override": override, "manifest_url": manifest, "dir_argument": dirArg, "working_directory": cwd}
 		key := fmt.Sprintf("dir:%d", t)
 		if t%2 == 1 {
 			preexisting(wbn)
 		}
+		toolCwd = cwd
 		res := tool("gen-bundle", nil, args...)
+		toolCwd = ""
 		outcome := "dir:ok"
 		var parsed *rbundle.Parsed
 		var wbnBytes []byte
